@@ -20,7 +20,8 @@ LEVEL_TEXT = ("States are scripts of up to 5 tables (same name in two schemas, n
               " Since the seeded-change audit: statements aimed at columns an earlier ADD / RENAME produced (DROP / RENAME / FOREIGN KEY over them), lower-case index directions, every pair also in bigquery mode (schema reported as dataset), undefined targets after a same-named table of another schema was just resolved, and all 20^3 triples over the column-list kinds on two tables in the quick tier."
               ' Wave 5: a foreign key without referenced column list, a two-word referential action in an ALTER (known finding), every ordered pair of statement kinds on the unqualified table under each of the 13 other output modes; thorough: 58^3 triples over all kinds on the two same-named tables and 24^4 histories of length 4 over the column-list kinds (587 000 histories).'
               " Defect hunt: the column TYPE is part of the model; five more ADD DEFAULT value forms (string, negative, keyword; call and parenthesised value as known finding), ADD <column> NOT NULL and pg_dump's ALTER COLUMN .. SET DEFAULT (known findings, depth 1 only)."
-              ' Wave 6: a foreign key to a keyword-named table and a fractional ADD DEFAULT value.')
+              ' Wave 6: a foreign key to a keyword-named table and a fractional ADD DEFAULT value.'
+              " Wave 7 (scale sweep): 3 / 12 / 30 / 4 tables of 3 / 12 / 4 / 24 columns followed by every number 1..40 (thorough ..96) of ALTER / INDEX statements of 9 kinds cycling from every offset; statement i addresses table (7i + off) mod N and one of the LAST columns of its current column list; every table is compared with a reference model that tracks adds, drops, renames and re-definitions.")
 LEVEL_NOTE = ("The reference model covers the observables the property names (column list, sizes, defaults, unique flags, alter section, "
               "index entries); dropped_/modified_columns bookkeeping shapes are not compared. Column operands of ADD UNIQUE / ADD DEFAULT "
               "are spelled as declared.")
@@ -116,7 +117,7 @@ def stmt(op):
 
 
 def bounds(tier):
-    return {"tables": 5, "kinds": len(KINDS), "spellings": "6 x 6 (schema x table) x 3 (column)", "output_modes": MODES,
+    return {"tables": 5, "kinds": len(KINDS), "spellings": "6 x 6 (schema x table) x 3 (column)", "output_modes": MODES, "scale_history_length": 96 if tier == "thorough" else 40, "scale_tables": 30, "scale_columns": 24,
             "depth": "1 (all spellings), 2 (all kind/target pairs x 2 modes), 3 (%s)" % (
                 "24^3 + 24^3 + 58^3 triples, 24^4 histories of length 4" if tier == "thorough" else "24^3 triples over the column-list kinds on 2 tables")}
 
@@ -180,7 +181,97 @@ def gen_cases(tier):
             cases.append({"tabs": ["s1.t", "t", "u"], "ops": [x + ["asis", "asis", "asis"] for x in tri]})
         for quad in itertools.product(s3q, repeat=4):
             cases.append({"tabs": ["s1.t", "t"], "ops": [x + ["asis", "asis", "asis"] for x in quad]})
-    return cases
+    return cases + scale_cases(tier == "thorough")
+
+
+# ------------------------------------------------------------------ scale sweep (wave 7)
+# N tables of M columns followed by L ALTER / INDEX statements, L swept completely; statement i addresses table (7 i + off) mod N and a
+# column picked from the END of that table's current column list, so two-digit table / column / statement positions are all reached
+S_OPS = ["add", "uq", "def", "idx", "rename", "fk", "mod", "drop", "chk"]
+
+
+def scale_cases(deep):
+    out = []
+    for L in range(1, (96 if deep else 40) + 1):
+        for (N, M) in ((3, 3), (12, 12), (30, 4), (4, 24)):
+            for off in ((0, 1, 2, 3, 4, 5, 6, 7, 8) if (deep or L <= 12) else (0, 4)):
+                out.append({"scale": True, "L": L, "N": N, "M": M, "off": off})
+    return out
+
+
+def scale_script(case):
+    """-> (ddl, per-table models, base ddl)"""
+    N, M, L, off = case["N"], case["M"], case["L"], case["off"]
+    names = [("s%d." % (i % 3) if i % 2 else "") + "t%d" % i for i in range(N)]
+    base = ["CREATE TABLE %s (%s);" % (nmx, ", ".join("c%d %s" % (j, "varchar(%d)" % (j + 1) if j % 2 else "int") for j in range(M))) for nmx in names]
+    models = [{"cols": [["c%d" % j, (j + 1) if j % 2 else None, None, False, "varchar" if j % 2 else "int"] for j in range(M)], "alter": {}, "index": []} for _ in range(N)]
+    stm = []
+    for i in range(L):
+        ti = (7 * i + off) % N
+        m = models[ti]
+        cols, A = m["cols"], m["alter"]
+        op = S_OPS[(i + off) % len(S_OPS)]
+        if op == "drop" and len(cols) <= 2:
+            op = "add"
+        col = cols[-1 - (i % min(3, len(cols)))]
+        T = names[ti]
+        if op == "add":
+            stm.append("ALTER TABLE %s ADD x%d int;" % (T, i))
+            cols.append(["x%d" % i, None, None, False, "int"])
+        elif op == "uq":
+            stm.append("ALTER TABLE %s ADD CONSTRAINT u%d UNIQUE (%s);" % (T, i, col[0]))
+            A.setdefault("uniques", []).append({"constraint_name": "u%d" % i, "columns": [col[0]]})
+            col[3] = True
+        elif op == "def":
+            stm.append("ALTER TABLE %s ADD CONSTRAINT d%d DEFAULT %d FOR %s;" % (T, i, i, col[0]))
+            A.setdefault("defaults", []).append({"constraint_name": "d%d" % i, "columns": [col[0]], "value": str(i)})
+            col[2] = str(i)
+        elif op == "idx":
+            c2 = cols[0]
+            stm.append("CREATE INDEX ix%d ON %s (%s DESC, %s);" % (i, T, col[0], c2[0]))
+            m["index"].append({"index_name": "ix%d" % i, "unique": False, "columns": [col[0], c2[0]], "orders": ["DESC", "ASC"]})
+        elif op == "rename":
+            stm.append("ALTER TABLE %s RENAME COLUMN %s TO r%d;" % (T, col[0], i))
+            A.setdefault("renamed_columns", []).append({"from": col[0], "to": "r%d" % i})
+            col[0] = "r%d" % i
+        elif op == "fk":
+            stm.append("ALTER TABLE %s ADD CONSTRAINT f%d FOREIGN KEY (%s) REFERENCES o%d (y%d);" % (T, i, col[0], i, i))
+            A.setdefault("columns", []).append([col[0], "y%d" % i])
+        elif op == "mod":
+            stm.append("ALTER TABLE %s MODIFY COLUMN %s varchar(%d);" % (T, col[0], 100 + i))
+            cols[cols.index(col)] = [col[0], 100 + i, None, False, "varchar"]
+        elif op == "drop":
+            stm.append("ALTER TABLE %s DROP COLUMN %s;" % (T, col[0]))
+            cols.remove(col)
+        elif op == "chk":
+            stm.append("ALTER TABLE %s ADD CONSTRAINT k%d CHECK (%s > %d);" % (T, i, col[0], i))
+            A.setdefault("checks", []).append({"constraint_name": "k%d" % i, "statement": "%s > %d" % (col[0], i)})
+    return "\n".join(base + stm), models, "\n".join(base)
+
+
+def evaluate_scale(case):
+    ddl, models, base = scale_script(case)
+    r0, r = run_ddl(base), run_ddl(ddl)
+    if r[0] != "ok" or r0[0] != "ok":
+        return {"diffs": [diff("scale script", "raises", "result", (r if r[0] != "ok" else r0)[1:3])], "outcome": "exc", "states": 1, "transitions": case["L"], "traces": 1}
+    res, res0 = r[1], r0[1]
+    if len(res) != case["N"] or not all(is_table(e) for e in res):
+        return {"diffs": [diff("entities", "entity-count", case["N"], short(res, 200))], "outcome": "count"}
+    diffs = []
+    empty = {"alter": {}, "index": []}
+    for i, m in enumerate(models):
+        if m["alter"] == {} and m["index"] == [] and [c[0] for c in m["cols"]] == ["c%d" % j for j in range(case["M"])] and not any(c[1] and c[1] >= 100 for c in m["cols"]):
+            if res[i] != res0[i]:
+                diffs.append(diff("table %d (not addressed)" % i, "other-table-changed", short(res0[i], 200), short(res[i], 200)))
+            continue
+        if res[i].get("table_name") != res0[i].get("table_name") or res[i].get("schema") != res0[i].get("schema"):
+            diffs.append(diff("table %d identity" % i, "target-identity-changed", [res0[i].get("schema"), res0[i].get("table_name")], [res[i].get("schema"), res[i].get("table_name")]))
+        got, want = norm_obs(observe(res[i])), norm_obs(m)
+        for part in ("cols", "alter", "index"):
+            if got[part] != want[part]:
+                diffs.append(diff("table %d %s" % (i, part), "effect-differs:" + part, short(want[part], 400), short(got[part], 400)))
+                break
+    return {"diffs": diffs, "nontrivial": True, "outcome": "scale:%d" % (case["L"] // 8), "states": case["L"] + 1, "transitions": case["L"], "traces": 1}
 
 
 # ------------------------------------------------------------------ reference model
@@ -308,7 +399,7 @@ def norm_obs(o):
 
 def features(case):
     f = []
-    for op in case["ops"]:
+    for op in case.get("ops", []):
         if "bt" in (op[2], op[3]):
             f.append("target:backtick")
         if op[0] == "fk2w":
@@ -326,6 +417,8 @@ _BASE = {}
 
 
 def evaluate(case):
+    if case.get("scale"):
+        return evaluate_scale(case)
     tabs = case["tabs"]
     base_ddl = "\n".join(TABLES[x][2] for x in tabs) + "\n"
     ddl = base_ddl + "\n".join(stmt(op) for op in case["ops"])
@@ -373,10 +466,14 @@ def evaluate(case):
 
 
 def describe(case):
+    if case.get("scale"):
+        return {"scale": case, "script": scale_script(case)[0][:1500]}
     return {"tables": case["tabs"], "statements": [stmt(op) for op in case["ops"]], "undefined_target": bool(case.get("undefined")),
             "output_mode": case.get("mode", "sql")}
 
 
 def snippet(case):
+    if case.get("scale"):
+        return _snip(scale_script(case)[0])
     base_ddl = "\n".join(TABLES[x][2] for x in case["tabs"]) + "\n"
     return _snip(base_ddl + "\n".join(stmt(op) for op in case["ops"]), run={"output_mode": case.get("mode", "sql")})
